@@ -2,7 +2,7 @@ import TypstyleModel.Proofs.CarriesLists
 import TypstyleModel.Proofs.CarriesMarkup
 import TypstyleModel.Proofs.CarriesCall
 import TypstyleModel.Proofs.CarriesRaw
-import TypstyleModel.Proofs.CarriesBinary
+import TypstyleModel.Proofs.CarriesDot
 /-! The knot (route M): **for every tree of the covered fragment, the printed family carries exactly
 what the tree prescribes** — code tokens, comments, prose, literals and verbatim text — with no
 per-case certificate: by induction over the fuel of the knot, using the per-construct theorems.
@@ -123,9 +123,9 @@ def listChildrenOK (k : Kind) (cs : List ANode) : Bool :=
         | [.leaf .refMarker t _, b] => refMarkerOK t && isBlockShape b
         | _ => false)
   | .funcCall =>
-      -- callee and arguments; dot chains (callee a field access) and `table`/`grid` are laid out by other code
+      -- callee and arguments; `table`/`grid` are laid out by other code
       (match cs with
-        | [callee, args] => isExpr callee && !(callee.kind == .fieldAccess) && args.kind == .args &&
+        | [callee, args] => chainHeadOK callee && args.kind == .args &&
             !(callee.kind == .ident && (callee.text == "table" || callee.text == "grid"))
         | _ => false)
   | _ => false
@@ -136,7 +136,7 @@ def inFrag : ANode → Bool
   | .leaf k t a => ANode.tokensAreLeaves (.leaf k t a) && (!k.isExpr || k.isFragLeaf || (k == .parbreak && !a.disabled) || k == .none_ || k == .auto_) && (!k.isInnerKind || (k == .markup && t == ""))
   | .inner k cs _ =>
     (k.isFragFlow || k.isFragElem || (k.isFragList && listChildrenOK k cs) || k == .code ||
-      ((k.isFragWrap || k == .markup || k == .args || k == .funcCall || k == .params || k == .destructuring || k == .raw || k == .ref) && listChildrenOK k cs) || k.isFragItem || k == .setRule || k == .closure || k == .forLoop || (k == .binary && binChildrenOK cs)) && inFragL cs
+      ((k.isFragWrap || k == .markup || k == .args || k == .funcCall || k == .params || k == .destructuring || k == .raw || k == .ref) && listChildrenOK k cs) || k.isFragItem || k == .setRule || k == .closure || k == .forLoop || (k == .binary && binChildrenOK cs) || (k == .fieldAccess && dotChildrenOK cs)) && inFragL cs
 def inFragL : List ANode → Bool
   | [] => true
   | c :: cs => inFrag c && inFragL cs
@@ -144,7 +144,7 @@ end
 
 theorem fragKind_inner (k : Kind) (cs : List ANode)
     (h : (k.isFragFlow || k.isFragElem || (k.isFragList && listChildrenOK k cs) || k == .code ||
-      ((k.isFragWrap || k == .markup || k == .args || k == .funcCall || k == .params || k == .destructuring || k == .raw || k == .ref) && listChildrenOK k cs) || k.isFragItem || k == .setRule || k == .closure || k == .forLoop || (k == .binary && binChildrenOK cs)) = true) : k.isInnerKind = true := by
+      ((k.isFragWrap || k == .markup || k == .args || k == .funcCall || k == .params || k == .destructuring || k == .raw || k == .ref) && listChildrenOK k cs) || k.isFragItem || k == .setRule || k == .closure || k == .forLoop || (k == .binary && binChildrenOK cs) || (k == .fieldAccess && dotChildrenOK cs)) = true) : k.isInnerKind = true := by
   cases k <;> simp_all [Kind.isFragFlow, Kind.isFragElem, Kind.isFragList, Kind.isFragWrap, Kind.isFragItem, Kind.isInnerKind]
 
 mutual
@@ -178,6 +178,28 @@ theorem inFragL_append (a b : List ANode) : inFragL (a ++ b) = (inFragL a && inF
   | cons x xs ih => simp only [List.cons_append, inFragL, ih, Bool.and_assoc]
 
 abbrev Q : ANode → Prop := fun c => inFrag c = true
+
+theorem dotQ_frag : DotQ Q where
+  leaf := by
+    intro k t a h
+    constructor <;> (intro hk; subst hk; simp [Q, inFrag, Kind.isInnerKind] at h)
+  access := by
+    intro cs a h _
+    simp only [Q, inFrag, Bool.and_eq_true] at h
+    have h1 := h.1
+    simp [Kind.isFragFlow, Kind.isFragElem, Kind.isFragList, Kind.isFragWrap, Kind.isFragItem] at h1
+    exact ⟨h1, inFragL_lex cs h.2, fun c hc => inFragL_mem h.2 hc⟩
+  call := by
+    intro cs a h _
+    simp only [Q, inFrag, Bool.and_eq_true] at h
+    have h1 := h.1
+    simp [Kind.isFragFlow, Kind.isFragElem, Kind.isFragList, Kind.isFragWrap, Kind.isFragItem] at h1
+    simp only [listChildrenOK] at h1
+    rcases cs with _ | ⟨callee, _ | ⟨args, _ | ⟨c2, rest⟩⟩⟩ <;> simp only [Bool.false_eq_true] at h1
+    simp only [Bool.and_eq_true, Bool.not_eq_true', beq_iff_eq] at h1
+    have hqs := h.2
+    simp only [inFragL, Bool.and_eq_true] at hqs
+    exact ⟨callee, args, rfl, h1.1.1, h1.1.2, inFrag_lex _ hqs.1, hqs.1, hqs.2.1⟩
 
 theorem binQ_frag : BinQ Q where
   leaf := by
@@ -663,6 +685,13 @@ theorem convExpr_frag (e : Env) (r : Rec) (hr : RecOK r Q) (ctx : Ctx) (hctx : N
         · cases m with
           | inner _ _ _ => simp at hch
           | leaf km tm am => cases km <;> simp at hch
+      by_cases hfak : k = .fieldAccess
+      · subst hfak
+        have hq0 : inFrag (.inner .fieldAccess cs a) = true := by
+          simp only [inFrag, Bool.and_eq_true]; exact hq
+        show Post (convFieldAccess e r ctx _) _
+        exact convFieldAccess_carries e r hr dotQ_frag ctx hctx
+          (fun c hc ar hk hqa => args_frag e r hr c hc ar hk hqa) cs a hq0 hd'
       by_cases hbink : k = .binary
       · subst hbink
         have hq0 : inFrag (.inner .binary cs a) = true := by
@@ -748,10 +777,14 @@ theorem convExpr_frag (e : Env) (r : Rec) (hr : RecOK r Q) (ctx : Ctx) (hctx : N
         simp only [listChildrenOK] at hch
         rcases cs with _ | ⟨callee, _ | ⟨args, _ | ⟨c2, rest⟩⟩⟩ <;> simp only [Bool.false_eq_true] at hch
         simp only [Bool.and_eq_true, Bool.not_eq_true', beq_iff_eq] at hch
-        obtain ⟨⟨⟨hcx, hcf⟩, hak⟩, htab⟩ := hch
+        obtain ⟨⟨hhead, hak⟩, htab⟩ := hch
+        have hcx : isExpr callee = true := by
+          simp only [chainHeadOK, Bool.and_eq_true] at hhead; exact hhead.1
         have hqs := hq.2
         simp only [inFragL, Bool.and_eq_true] at hqs
-        rw [specAll_inner .funcCall _ a (by simp [isVerbatimNode, hd']) (by decide)]
+        have hq0 : inFrag (.inner .funcCall [callee, args] a) = true := by
+          simp only [inFrag, Bool.and_eq_true]; exact hq
+        have hlex0 : ANode.tokensAreLeaves (.inner .funcCall [callee, args] a) = true := inFrag_lex _ hq0
         show Post (convFuncCall e r ctx _) _
         unfold convFuncCall firstWhere lastWhere
         have hf1 : ([callee, args] : List ANode).find? isExpr = some callee := by rw [List.find?_cons, hcx]
@@ -759,26 +792,39 @@ theorem convExpr_frag (e : Env) (r : Rec) (hr : RecOK r Q) (ctx : Ctx) (hctx : N
         have hf2 : ([callee, args] : List ANode).reverse.find? (fun x => x.kind == .args) = some args := by
           show ([args, callee] : List ANode).find? _ = _
           rw [List.find?_cons]; simp [hak]
-        simp only [ANode.children, hf1, hf2, childOr, M.pure_bind, hcf, Bool.false_eq_true, ↓reduceIte]
-        refine Post.bind (hr.expr ctx callee hctx hcx hqs.1) (fun dc hdc => ?_)
-        have hm : (ctx.mode == LMode.math) = false := by unfold NM at hctx; simpa using hctx
-        have hnt : isTable (.inner .funcCall [callee, args] a) = false := by
-          unfold isTable identFuncName firstWhere
-          simp only [ANode.children, hf1]
-          by_cases hid : callee.kind = .ident
-          · simp only [hid, beq_self_eq_true, ↓reduceIte, Option.some.injEq, Bool.or_eq_false_iff, beq_eq_false_iff_ne]
-            have := htab
-            simp only [hid, beq_self_eq_true, Bool.true_and, Bool.or_eq_false_iff, beq_eq_false_iff_ne] at this
-            exact ⟨fun h => this.1 (Option.some.inj h), fun h => this.2 (Option.some.inj h)⟩
-          · have : (callee.kind == .ident) = false := by simpa using hid
-            simp [this]
-        have heqa : convFuncCallArgs e r ctx (.inner .funcCall [callee, args] a) args = convArgs e r ctx args := by
-          unfold convFuncCallArgs convArgs
-          simp only [hm, Bool.false_eq_true, ↓reduceIte, hnt]
-        have ha := args_frag e r hr ctx hctx args hak hqs.2.1
-        rw [← heqa] at ha
-        refine Post.bind ha (fun da hda => Post.pure ?_)
-        simpa [specAllL_cons] using hdc.app hda
+        simp only [ANode.children, hf1, hf2, childOr, M.pure_bind]
+        have tail : Post (do
+              let d1 ← r.expr ctx callee
+              let d2 ← convFuncCallArgs e r ctx (ANode.inner Kind.funcCall [callee, args] a) args
+              pure (d1 ++ d2)) (fun d => Carries d (specAll (ANode.inner Kind.funcCall [callee, args] a))) := by
+          rw [specAll_inner .funcCall _ a (by simp [isVerbatimNode, hd']) (by decide)]
+          refine Post.bind (hr.expr ctx callee hctx hcx hqs.1) (fun dc hdc => ?_)
+          have hm : (ctx.mode == LMode.math) = false := by unfold NM at hctx; simpa using hctx
+          have hnt : isTable (.inner .funcCall [callee, args] a) = false := by
+            unfold isTable identFuncName firstWhere
+            simp only [ANode.children, hf1]
+            by_cases hid : callee.kind = .ident
+            · simp only [hid, beq_self_eq_true, ↓reduceIte, Option.some.injEq, Bool.or_eq_false_iff, beq_eq_false_iff_ne]
+              have := htab
+              simp only [hid, beq_self_eq_true, Bool.true_and, Bool.or_eq_false_iff, beq_eq_false_iff_ne] at this
+              exact ⟨fun h => this.1 (Option.some.inj h), fun h => this.2 (Option.some.inj h)⟩
+            · have : (callee.kind == .ident) = false := by simpa using hid
+              simp [this]
+          have heqa : convFuncCallArgs e r ctx (.inner .funcCall [callee, args] a) args = convArgs e r ctx args := by
+            unfold convFuncCallArgs convArgs
+            simp only [hm, Bool.false_eq_true, ↓reduceIte, hnt]
+          have ha := args_frag e r hr ctx hctx args hak hqs.2.1
+          rw [← heqa] at ha
+          refine Post.bind ha (fun da hda => Post.pure ?_)
+          simpa [specAllL_cons] using hdc.app hda
+        split
+        · refine Post.bind (tryDotChain_post e r hr dotQ_frag ctx hctx (fun c hc ar hk hqa => args_frag e r hr c hc ar hk hqa)
+              _ rfl hlex0 hq0 hd') ?_
+          intro o ho
+          cases o with
+          | some d => exact Post.pure ho
+          | none => exact tail
+        · exact tail
       by_cases hsetk : k = .setRule
       · subst hsetk
         show Post (convSetRule e r ctx _) _
